@@ -982,6 +982,10 @@ func (c *lexCtx) x1Ranges(rule string) {
 						if b, ok := constIntVal(call.Call.Args[2]); !ok || b > want {
 							okAll = false
 						}
+					case cid.is(ttlvPath, "", "parseInt") || cid.is(ttlvPath, "", "parseUint"):
+						if b, ok := constIntVal(call.Call.Args[len(call.Call.Args)-1]); !ok || b > want {
+							okAll = false
+						}
 					case cid.is(ttlvPath, "", "EnumByName") || cid.is(ttlvPath, "", "BitmaskByStr"):
 					default:
 						okAll = false
